@@ -26,7 +26,7 @@ theorem spec_sound : Sound spec := by unfold Sound; decide
 
 /-- No call site keeps a cache across a clear (today the literals `"igraph"`, `"graph"`, `"segments"`, …
 never match the attribute names `"_igraph"`, `"_graph_nx"`, `"_segments"`). -/
-theorem excludes_retain_nothing : ∀ c ∈ spec.clearSites, ∀ v ∈ spec.views, v.attr ∉ c.excl :=
+theorem excludes_retain_nothing : ∀ c ∈ spec.clearSites, ∀ v ∈ spec.views, exclMatches spec c.excl v.attr = false :=
   (sound_facts spec_sound).exclFree
 
 /-- Every wrapped view is computed from hashed columns only: the checksum covers its inputs.  The one
@@ -145,6 +145,19 @@ theorem copy_of_stale_is_clean (s : St) (h : J spec s) (hst : (isStaleS spec s).
   unfold copyS
   rw [if_pos hst, if_pos hc, hu]
   simp [clearS, clearBase, classifyS, hs.restamps, hs.deletes, hr]
+
+/-- **Failed calls.** A call of a `@lock_neuron` function (reroot_skeleton, subset_neuron, dist_between, …)
+that *raises* — after any reads / cache writes / changes in its body — leaves the lock counter where it
+was (the generated spec says the release sits in a `finally:`), so an unlocked neuron stays unlocked and
+`read_returns_current` keeps applying to it. -/
+theorem failed_call_releases_lock (s : St) (body : List Ev) (hb : ∀ e ∈ body, lockNeutral e = true) (raises : Bool) :
+    (run spec s (lockedCall spec body raises)).lock = s.lock :=
+  lockedCall_lock (by decide) s body hb raises
+
+/-- … and a call that raises before doing anything has no effect on the protocol state at all. -/
+theorem failed_call_is_noop (s : St) : run spec s (lockedCall spec [] true) = s := by
+  have hf : spec.lockFinally = true := by decide
+  simp [lockedCall, hf, run, step]
 
 /-- Edit / undo on an unlocked neuron: content may return to *any* earlier value (no freshness assumption
 on `change`); as long as no operation holding the lock intervenes and only wrapped views are read, the
